@@ -41,6 +41,10 @@ CHECKS = {
    text="One real gmtls endpoint (client; server in GMSSL-only, auto-switch and TLS mode) against a scripted, independent GM/T 0024 peer on the simulated network. Scripts are drawn per run from the alphabet of Appendix C: 1-3 wire deviations at drawn message positions (wrong type, duplicate, omission, truncation, rewritten length bytes, inserted application data / ChangeCipherSpec / alerts / unknown records, end of stream before or inside every record, stall with and without a virtual-time deadline), hello-level content (version sweep 0x0000..0x0400 with GM and TLS suites, suite lists, compression, ServerHello selections, certificate lists with non-EC keys) and legal variations that must still complete (fragmentation, coalescing, unknown extensions and suites). The reference peer keeps its honest transcript, so every byte-changing deviation must end in an error on the endpoint.",
    note="Trusts the reftls endpoints (honest scripts in every batch complete against unmodified gmtls in both roles). A TLS-mode server is only exercised up to what a GM scripted client can send (ClientHello-level and record-level junk).",
    technique="deterministic simulation with fault injection: scripted misbehaving peer and peer crash (EOF) at every record boundary and inside records on a simulated network with virtual-time deadlines; oracle = error / never complete / no panic / returns once input ended; ddmin-minimised replay files"),
+ "C16": dict(level="exploration", design="5 (C16), Appendix D",
+   text="Histories of up to six operations between one client session cache (capacity 1..3) and one or two server configurations are simulated: connections, ticket-key rotations (keeping or dropping the old key), restarts keeping or losing the key, suite / ClientAuth / tickets-enabled changes, cache eviction by connections to another name, clock jumps, and forged, truncated, extended or mismatched tickets offered through the independent reference client. A small reference model of the resumption policy - fed only by NewSessionTicket messages seen on the wire and the key log - decides soundness (never resume unless every condition of the property holds), completeness (exactly as far as the property states it), session identity (resumed GMSSL sessions must decode under the ORIGINAL master secret), ticket refresh after rotation, and silent fall-back.",
+   note="Trusts the policy model (Appendix D) and reftls. TLS-mode resumed sessions have no reference decoder: agreement of exported keying material on both ends is checked instead.",
+   technique="deterministic simulation over histories: seeded sequences of connections, key rotations, restarts (durable vs lost ticket key), configuration changes, cache evictions, clock jumps and forged tickets; reference-model oracle over the recorded history; ddmin-minimised replay files"),
  "C19": dict(level="exploration", design="5 (C19)",
    text="Seeded simulation of the sources and sinks around the streaming PKCS#7 helpers: every Read/Write size and behaviour (short non-EOF read, 1-byte, (0,nil), data+EOF) is a choice; a separate fault family injects one source or sink error at a drawn offset. Oracle: reference padding model (exact equality fault-free; error surfaced and emitted bytes a prefix under an injected error).",
    note="Trusts the 6-line refpad model and stdlib AES/DES-CBC (used as the block mode so SM4 changes cannot raise C19 alarms).",
